@@ -146,6 +146,12 @@ impl Store {
         })
     }
 
+    /// Source paths of the last saved build, including files that have since
+    /// been removed or renamed.
+    pub fn saved_sources(&self) -> impl Iterator<Item = &str> {
+        self.manifest.files.keys().map(|x| x.as_str())
+    }
+
     /// Looks up the previous build's entry for a source path.
     pub fn entry(&self, src: &str) -> Option<&FileEntry> {
         self.manifest.files.get(src)
